@@ -78,6 +78,8 @@ func TestC34(t *testing.T) {
 		for _, n := range topo.Nodes {
 			sim.GetHost(sim.Prefix + n.Name).FailCreateEvery = 2
 		}
+		// one node's daemon needs 150 ms for Info: node listings with a shorter deadline end while it is still answering
+		atomic.StoreInt64(&sim.GetHost(sim.Prefix+"n3").InfoDelayNs, int64(150*time.Millisecond))
 		var mu sync.Mutex
 		live := []string{}
 		pick := func(rr *rand.Rand, k int) []string {
@@ -231,13 +233,19 @@ func TestC34(t *testing.T) {
 							}
 						}
 					case "list-nodes":
-						if st, err := cli.ListPodNodes(ctx, &pb.ListNodesOptions{Podname: "pa", All: true}); err == nil {
+						lctx, lcancel := ctx, context.CancelFunc(func() {})
+						if rr.Intn(2) == 0 { // an impatient caller
+							lctx, lcancel = context.WithTimeout(ctx, time.Duration(20+rr.Intn(60))*time.Millisecond)
+							rec.Count("list_nodes_with_short_deadline", 1)
+						}
+						if st, err := cli.ListPodNodes(lctx, &pb.ListNodesOptions{Podname: "pa", All: true}); err == nil {
 							for {
 								if _, err := st.Recv(); err != nil {
 									break
 								}
 							}
 						}
+						lcancel()
 					case "get-workloads":
 						if ids := pick(rr, 3); len(ids) > 0 {
 							_, _ = cli.GetWorkloads(ctx, &pb.WorkloadIDs{IDs: ids})
